@@ -73,7 +73,7 @@ var c05Entries = []string{"LoadString", "LoadStringContext", "Load", "LoadContex
 
 var c05Faults = []string{"none", "none", "error", "type-error", "arity-error", "unbound", "stack-limit", "nesting-limit", "macro-limit", "step-budget", "cancel",
 	"panic-arg", "panic-in-handler", "panic-under-ignore-errors", "panic-in-map", "panic-in-macro", "error-in-handler", "in-package-then-fail", "rethrow-outside", "tail-iter-limit",
-	"empty-source", "cross-package-fail-mid", "cross-package-fail-mid-swallowed", "cross-package-macro-fail-mid", "bad-handler", "bad-handler-swallowed", "fail-in-binding-form", "panic-direct-callback"}
+	"empty-source", "cross-package-fail-mid", "cross-package-fail-mid-swallowed", "cross-package-macro-fail-mid", "bad-handler", "bad-handler-swallowed", "fail-in-binding-form", "panic-direct-callback", "cross-package-empty-body"}
 
 // c05Effect returns the k-th effect statement of a step (atomic, followed by a
 // completion probe) and the same statement without probe for the twin.
@@ -176,6 +176,9 @@ const c05Prelude = `
 (defun fail-mid (x) (identity own) (car 5) (set 'own -1) x)
 (defun fail-mid-deep (x) (let ([y x]) (fail-mid y) y) x)
 (defmacro mac-fail-mid (x) (car 5) x)
+(defun empty-fn (&rest xs))
+(defmacro empty-mac (&rest xs))
+(defun doc-only-fn () "only a docstring")
 (in-package 'user)
 `
 
@@ -235,6 +238,11 @@ func c05Run(w *fw.W, idx int) {
 			// still run in the caller's package
 			swallowed = true
 			faultForm = fw.Pick(r, []string{"(ignore-errors (other-pkg:fail-mid 1))", "(handler-bind ((condition (lambda (c &rest a) 'h))) (other-pkg:fail-mid-deep 1))", "(ignore-errors (other-pkg:mac-fail-mid 1))"})
+		case "cross-package-empty-body":
+			// a function / macro of another package WITHOUT body forms: calling it does
+			// nothing, and what follows still runs in the caller's package
+			swallowed = true
+			faultForm = fw.Pick(r, []string{"(other-pkg:empty-fn 1 2)", "(other-pkg:empty-mac (f1 1) 2)", "(list (other-pkg:empty-fn) (other-pkg:empty-mac))", "(macroexpand '(other-pkg:empty-mac 1))", "(progn (other-pkg:empty-mac) (other-pkg:doc-only-fn))"})
 		case "bad-handler-swallowed":
 			swallowed = true
 			faultForm = "(ignore-errors " + c05FaultForm("bad-handler", r) + ")"
